@@ -836,6 +836,8 @@ class Interp:
             if name == "__dict__":
                 return o.fields
             v, c = o.cls.find(name)
+            if c is None and name == "__setattr__":
+                return self.lib.Model(lambda interp, k, val: interp.setattr(o, k, val), "object.__setattr__")
             if c is None:
                 ga, _ = o.cls.find("__getattr__")
                 if ga is not None:
